@@ -2214,7 +2214,19 @@ impl StorageEngine {
     /// Register a WATCH on a specific key and return baseline counter
     pub fn register_watch(&self, db: DatabaseIndex, key: &[u8]) -> Result<u64> {
         let shard = self.get_shard(db, key)?;
-        let shard_guard = shard.read().unwrap();
+        let mut shard_guard = shard.write().unwrap();
+        
+        // A stored value whose deadline has passed is logically absent: drop it now (as a modification, for those
+        // who watched it while it was alive), so that neither the expired-value clause of was_modified_since nor the
+        // sweeper's later removal aborts a transaction that watched a key which was already gone
+        if shard_guard.data.get(key).map_or(false, |stored_value| stored_value.is_expired()) {
+            if let Some(stored_value) = shard_guard.data.remove(key) {
+                shard_guard.expiring_keys.remove(key);
+                shard_guard.mark_modified(key);
+                let memory_size = self.calculate_value_size(key, &stored_value.value);
+                self.memory_manager.remove_memory(memory_size);
+            }
+        }
         
         // Register watch and get baseline counter for this specific key
         let baseline_counter = shard_guard.watch_tracker.register_watch(key);
